@@ -34,7 +34,7 @@ JobOf(kind, j) ==
     CASE kind = "import" -> [phase |-> j.phase, batch |-> j.batch, idx |-> j.idx, next |-> j.next, file |-> j.file,
                              upd |-> S(j.upd), res |-> S(j.res), add |-> S(j.add), used |-> j.used, n |-> j.n]
       [] kind = "tag"    -> [phase |-> j.phase, tag |-> j.tag, def |-> DefOf(j.def), U0 |-> S(j.U0), M0 |-> S(j.M0),
-                             idx |-> j.idx, td |-> [t \in DOMAIN j.td |-> S(j.td[t])], M1 |-> S(j.M1)]
+                             idx |-> j.idx, td |-> [t \in DOMAIN j.td |-> S(j.td[t])], M1 |-> S(j.M1), stale |-> j.stale]
       [] kind = "merge"  -> [phase |-> j.phase, off |-> j.off, idx |-> j.idx, file |-> j.file]
       [] kind = "conv"   -> [phase |-> j.phase, ids |-> [c \in DOMAIN j.ids |-> S(j.ids[c])], idx |-> j.idx]
 
